@@ -661,16 +661,41 @@ def _sim_open(file, mode='r', buffering=-1, encoding=None, errors=None, newline=
 # --------------------------------------------------------------------------------------
 # simulated process pool
 # --------------------------------------------------------------------------------------
+def _fdone(f):
+    """state of a future as the kernel sees it (no scheduling point)"""
+    return _cf.Future.done(f)
+
+
 class SimFuture(_cf.Future):
+    """In CPython results are delivered to the parent's futures by the executor's manager *thread*, i.e. asynchronously
+    to the parent's main thread: every time the parent looks at a future is therefore a scheduling point."""
+
+    def _peek(self, what):
+        p = cur()
+        if p is not None and not p.atomic:
+            p.kernel.seam('future-' + what, '')
+
+    def done(self):
+        self._peek('done')
+        return _cf.Future.done(self)
+
+    def running(self):
+        self._peek('running')
+        return _cf.Future.running(self)
+
+    def cancelled(self):
+        self._peek('cancelled')
+        return _cf.Future.cancelled(self)
+
     def _sim_wait(self, timeout):
         p = cur()
-        if p is not None and not self.done():
-            p.kernel.block(self.done, timeout=timeout, what='future')
+        if p is not None and not _fdone(self):
+            p.kernel.block(lambda: _fdone(self), timeout=timeout, what='future')
 
     def result(self, timeout=None):
         self._sim_wait(timeout)
         if cur() is not None:
-            if not self.done():
+            if not _fdone(self):
                 raise _cf.TimeoutError()
             return super().result(0)
         return super().result(timeout)
@@ -678,7 +703,7 @@ class SimFuture(_cf.Future):
     def exception(self, timeout=None):
         self._sim_wait(timeout)
         if cur() is not None:
-            if not self.done():
+            if not _fdone(self):
                 raise _cf.TimeoutError()
             return super().exception(0)
         return super().exception(timeout)
@@ -907,7 +932,7 @@ class SimPool:
         k.record('pool-broken', f'pid {p.pid}')
         exc = _cf_process.BrokenProcessPool('A process in the process pool was terminated abruptly while the future was running or pending.')
         for t in self.tasks:
-            if not t.future.done():
+            if not _fdone(t.future):
                 try:
                     t.future.set_exception(exc)
                 except Exception:  # noqa: BLE001
@@ -940,7 +965,7 @@ class _AsyncResult:
         self._fired = False
 
     def ready(self):
-        return all(f.done() for f in self._futs)
+        return all(_fdone(f) for f in self._futs)
 
     def wait(self, timeout=None):
         p = cur()
@@ -1049,7 +1074,7 @@ class SimMPPool(SimPool):
         self.closed = True
         self.shutdown_flag = True
         k.seam('pool-terminate', '')
-        lost = [t.idx for t in self.tasks if not t.future.done()]
+        lost = [t.idx for t in self.tasks if not _fdone(t.future)]
         if lost:
             k.note('pool_terminated_with_pending_work', tasks=lost)
             k.probes['pool_terminated_with_pending_work'] += 1
@@ -1083,11 +1108,11 @@ def _sim_as_completed(fs, timeout=None):
     pending = list(dict.fromkeys(fs))
     end = None if timeout is None else k.now + timeout
     while pending:
-        done = [f for f in pending if f.done()]
+        done = [f for f in pending if _fdone(f)]
         if not done:
-            k.block(lambda: any(f.done() for f in pending), timeout=None if end is None else max(0.0, end - k.now),
+            k.block(lambda: any(_fdone(f) for f in pending), timeout=None if end is None else max(0.0, end - k.now),
                     what='as_completed')
-            done = [f for f in pending if f.done()]
+            done = [f for f in pending if _fdone(f)]
             if not done:
                 raise _cf.TimeoutError(f'{len(pending)} (of {len(fs)}) futures unfinished')
         for f in done:
@@ -1103,14 +1128,14 @@ def _sim_wait(fs, timeout=None, return_when=_cf.ALL_COMPLETED):
     fs = set(fs)
 
     def ok():
-        d = [f for f in fs if f.done()]
+        d = [f for f in fs if _fdone(f)]
         if return_when == _cf.FIRST_COMPLETED:
             return bool(d)
         if return_when == _cf.FIRST_EXCEPTION:
-            return len(d) == len(fs) or any((not f.cancelled()) and f.exception(0) is not None for f in d)
+            return len(d) == len(fs) or any((not _cf.Future.cancelled(f)) and _cf.Future.exception(f, 0) is not None for f in d)
         return len(d) == len(fs)
     k.block(ok, timeout=timeout, what='wait')
-    d = {f for f in fs if f.done()}
+    d = {f for f in fs if _fdone(f)}
     return _cf_base.DoneAndNotDoneFutures(d, fs - d)
 
 
